@@ -14,6 +14,8 @@ import (
 	"errors"
 	"fmt"
 	"io"
+	"reflect"
+	"runtime/debug"
 	"strings"
 	"testing"
 
@@ -559,20 +561,35 @@ func c18ReaderRead(r io.Reader, it c18Item) error {
 	return nil
 }
 
-func c18NoPanic(t *rapid.T, what string, f func()) {
+// guard runs f and turns a Go panic of the code under test into a rapid failure that names the
+// operation. rapid's own control-flow panics (t.Fatalf, exhausted draws) are passed through.
+func guard(t *rapid.T, what string, f func()) {
 	defer func() {
 		if r := recover(); r != nil {
-			t.Fatalf("panic in %s: %v", what, r)
+			if reflect.TypeOf(r).PkgPath() == "pgregory.net/rapid" {
+				panic(r)
+			}
+			t.Fatalf("panic in %s: %v\n%s", what, r, c18Stack())
 		}
 	}()
 	f()
 }
 
+func c18Stack() string {
+	b := debug.Stack()
+	if len(b) > 2500 {
+		b = b[:2500]
+	}
+	return string(b)
+}
+
+func c18NoPanic(t *rapid.T, what string, f func()) { guard(t, what, f) }
+
 const c18Rule = "typed value sequences (ints at 0/sign/max edges, varuints around 0xFC/0xFFFF/2^32/2^64, var-bytes with length 0/0xFC/0xFD/0xFFFF/0x10000, address/hash/I128) written by ZeroCopySink and common/serialization; hand-built minimal and non-minimal varuint prefixes; arbitrary/structured bytes with a byte-coded read script (Next*/Read*/Skip/BackUp<=pos, huge counts); non-trivial = a varuint or length within 2 of a size-class boundary, a non-minimal prefix, a truncated read, or a script step that hits eof/irregular/overflowing count; distinct = different value sequence / bytes+script"
 
 func TestC18_TypedRoundTrip(t *testing.T) {
 	ev := harn.For("C18").Rule(c18Rule)
-	ev.Floor("seq:has-var-edge", "", 0.10)
+	ev.Floor("seq:has-var-edge", "seq", 0.10)
 	harn.Check(t, 12000, 600000, func(t *rapid.T) {
 		n := rapid.IntRange(1, 12).Draw(t, "n")
 		items := make([]c18Item, n)
@@ -669,6 +686,7 @@ func TestC18_TypedRoundTrip(t *testing.T) {
 				})
 			}
 		}
+		ev.Class("seq")
 		if hasEdge {
 			ev.Class("seq:has-var-edge")
 		}
@@ -687,7 +705,7 @@ func TestC18_TypedRoundTrip(t *testing.T) {
 // TestC18_VarUintMinimality: every prefix form of a value; exactly the shortest one is regular.
 func TestC18_VarUintMinimality(t *testing.T) {
 	ev := harn.For("C18").Rule(c18Rule)
-	ev.Floor("varuint:nonminimal", "", 0.30)
+	ev.Floor("varuint:nonminimal", "varuint", 0.30)
 	check := func(fatal func(string, ...interface{}), v uint64, size int, tail []byte) (nonMinimal bool) {
 		var enc []byte
 		if size == 1 {
@@ -762,6 +780,7 @@ func TestC18_VarUintMinimality(t *testing.T) {
 		c18NoPanic(t, "varuint readers", func() {
 			nm = check(func(f string, a ...interface{}) { t.Fatalf(f, a...) }, v, size, tail)
 		})
+		ev.Class("varuint")
 		if nm {
 			ev.Class("varuint:nonminimal")
 		} else {
@@ -1060,7 +1079,7 @@ func c18RunScript(data, script []byte, class func(string)) (msg string, interest
 // c18GenData builds byte strings rich in varuint prefixes (minimal and not) and length-prefixed chunks.
 func c18GenData(t *rapid.T) []byte {
 	var out []byte
-	n := rapid.IntRange(0, 8).Draw(t, "chunks")
+	n := rapid.IntRange(0, 16).Draw(t, "chunks")
 	for i := 0; i < n; i++ {
 		switch rapid.IntRange(0, 5).Draw(t, "chunk") {
 		case 0:
@@ -1088,7 +1107,7 @@ func c18GenData(t *rapid.T) []byte {
 
 func TestC18_ReadScript(t *testing.T) {
 	ev := harn.For("C18").Rule(c18Rule)
-	ev.Floor("script:interesting", "", 0.30)
+	ev.Floor("script:interesting", "script", 0.30)
 	harn.Check(t, 30000, 2000000, func(t *rapid.T) {
 		data := c18GenData(t)
 		script := rapid.SliceOfN(rapid.Byte(), 1, 40).Draw(t, "script")
@@ -1096,6 +1115,7 @@ func TestC18_ReadScript(t *testing.T) {
 		if msg != "" {
 			t.Fatalf("%s", msg)
 		}
+		ev.Class("script")
 		if interesting {
 			ev.Class("script:interesting")
 		}
